@@ -122,6 +122,13 @@ pub fn gen_nodes(r: &mut Rng, depth: u32, top: bool, ts: Ts) -> Vec<Node> {
             out.push(Node::Prim { tag: t, vr: *vr, bytes: prim_bytes(r, vr) });
         }
     }
+    if top && r.chance(2, 5) {
+        // attributes of the pixel data group below Pixel Data: Extended Offset Table (OV), its Lengths (OV),
+        // Encapsulated Pixel Data Value Total Length (UV)
+        for (t, vr) in [(0x7FE0_0001u32, b"OV"), (0x7FE0_0002, b"OV"), (0x7FE0_0003, b"UV")] {
+            if r.chance(2, 3) { out.push(Node::Prim { tag: t, vr: *vr, bytes: (0..8 * r.range(1, 2)).map(|_| r.below(256) as u8).collect() }); }
+        }
+    }
     if top && r.chance(3, 5) {
         if r.chance(3, 4) { out.push(gen_pix(r)); }
         else { out.push(Node::Prim { tag: 0x7FE0_0010, vr: *b"OW", bytes: (0..2 * r.below(5)).map(|_| r.below(256) as u8).collect() }); }
@@ -201,13 +208,13 @@ fn stop_pool(r: &mut Rng, nodes: &[Node]) -> u32 {
         0 if !tags.is_empty() => *r.pick(&tags),
         1 if !tags.is_empty() => *r.pick(&tags) + 1,
         2 if !tags.is_empty() => r.pick(&tags).saturating_sub(1),
-        3 => *r.pick(&[0u32, 0x0008_0000, 0x7FE0_0010, 0xFFFF_FFFF, 0x0028_0000]),
+        3 => *r.pick(&[0u32, 0x0008_0000, 0x7FE0_0010, 0xFFFF_FFFF, 0x0028_0000, 0x7FE0_0000, 0x7FE0_0001, 0x7FE0_0003, 0x7FE0_0004, 0x7FE0_0011]),
         _ => { let p = r.pick(PRIMS).0; p + r.below(2) as u32 }
     }
 }
 
 
-fn run_case(r: &mut Rng, dir: &std::path::Path, idx: usize, ts: Ts, nodes: Vec<Node>, bucket: &str) -> Case {
+fn run_case(r: &mut Rng, dir: &std::path::Path, idx: usize, ts: Ts, nodes: Vec<Node>, bucket: &str, forced_splits: Option<Vec<(bool, u32)>>) -> Case {
     let preamble = r.chance(4, 5);
     let file = make_file(ts, &nodes, preamble);
     let mut ds = vec![]; enc_nodes(ts, &nodes, &mut ds);
@@ -239,15 +246,20 @@ fn run_case(r: &mut Rng, dir: &std::path::Path, idx: usize, ts: Ts, nodes: Vec<N
     }
 
     // ---- collector with random split points
+    // every portion through one of the entry points: read_dataset_up_to(tag) or read_dataset_up_to_pixeldata()
     let nsplits = r.below(4) as usize;
-    let mut splits: Vec<u32> = (0..nsplits).map(|_| stop_pool(r, &nodes)).collect();
-    if r.chance(2, 3) { splits.sort(); }
+    let mut splits: Vec<(bool, u32)> = (0..nsplits).map(|_| if r.chance(1, 3) { (true, 0x7FE0_0010) } else { (false, stop_pool(r, &nodes)) }).collect();
+    if r.chance(2, 3) { splits.sort_by_key(|s| s.1); }
+    if let Some(f) = forced_splits { splits = f; }
     let coll = catch(|| -> Result<(dicom_object::FileMetaTable, InMemDicomObject, Vec<CObj>), String> {
         let mut c = DicomCollector::open_file(&path).map_err(|e| e.to_string())?;
         let m = c.read_file_meta().map_err(|e| e.to_string())?.clone();
         let mut o = InMemDicomObject::new_empty();
         let mut parts = vec![];
-        for s in &splits { c.read_dataset_up_to(tag_of(*s), &mut o).map_err(|e| e.to_string())?; parts.push(cobj(&o)); }
+        for (pix, s) in &splits {
+            if *pix { c.read_dataset_up_to_pixeldata(&mut o).map_err(|e| e.to_string())?; } else { c.read_dataset_up_to(tag_of(*s), &mut o).map_err(|e| e.to_string())?; }
+            parts.push(cobj(&o));
+        }
         c.read_dataset_to_end(&mut o).map_err(|e| e.to_string())?;
         Ok((m, o, parts))
     });
@@ -262,7 +274,7 @@ fn run_case(r: &mut Rng, dir: &std::path::Path, idx: usize, ts: Ts, nodes: Vec<N
             if co != wobj { set_fail("CollectorObjectDiffers", format!("splits {:x?}: whole {:?} collected {:?}", splits, wobj, co)); }
             // every portion: after reading up to s_1 .. s_i the object holds exactly the elements below max(s_1 .. s_i)
             let mut hi = 0u32;
-            for (s, part) in splits.iter().zip(parts.iter()) {
+            for ((_, s), part) in splits.iter().zip(parts.iter()) {
                 hi = hi.max(*s);
                 let want: CObj = wobj.iter().filter(|(t, _)| **t < hi).map(|(t, v)| (*t, v.clone())).collect();
                 if *part != want { set_fail("CollectorPortionDiffers", format!("splits {:x?}: after stop {:x} expected tags {:x?} got {:x?}", splits, s, want.keys().collect::<Vec<_>>(), part.keys().collect::<Vec<_>>())); }
@@ -351,7 +363,7 @@ fn run_case(r: &mut Rng, dir: &std::path::Path, idx: usize, ts: Ts, nodes: Vec<N
             let toks = c_list(e.iter().map(|t| { let raw = if matches!(t, DataToken::PrimitiveValue(_)) { k += 1; raws.get(k - 1) } else { None }; c_token(t, raw) }));
             let ltoks = c_list(l.iter().map(|t| c_token(t, None)));
             format!("(CFile {} {} {} {} {} {} {} {} {} {} {})", c_bool(ts == Ts::Ebe), toks, ltoks, c_obj(&wobj),
-                    c_list(splits.iter().map(|s| s.to_string())), c_parts, c_final, c_bool(want_bot), c_frag, format!("({}, {})", cu, ct), c_part)
+                    c_list(splits.iter().map(|(p, s)| format!("({}, {})", c_bool(*p), s))), c_parts, c_final, c_bool(want_bot), c_frag, format!("({}, {})", cu, ct), c_part)
         }
         _ => String::new(),
     };
@@ -372,18 +384,25 @@ pub fn cases(ctx: &Ctx) -> Vec<Case> {
     // ---- corpus: offset table empty / non-empty, zero-length fragments, native pixel data
     let pn = Node::Prim { tag: 0x0010_0010, vr: *b"PN", bytes: b"A^B ".to_vec() };
     for ts in [Ts::Ele, Ts::Ile, Ts::Ebe] {
-        out.push(run_case(&mut r, &dir, out.len(), ts, vec![pn.clone(), Node::Pix { bot: vec![], frags: vec![vec![1, 2, 3, 4], vec![5, 6]] }], "corpus-empty-bot"));
-        out.push(run_case(&mut r, &dir, out.len(), ts, vec![pn.clone(), Node::Pix { bot: vec![0, 12], frags: vec![vec![1, 2, 3, 4], vec![5, 6]] }], "corpus-bot"));
-        out.push(run_case(&mut r, &dir, out.len(), ts, vec![pn.clone(), Node::Pix { bot: vec![], frags: vec![vec![], vec![7, 8], vec![]] }], "corpus-zero-length-fragments"));
-        out.push(run_case(&mut r, &dir, out.len(), ts, vec![pn.clone(), Node::Pix { bot: vec![0], frags: vec![] }], "corpus-no-fragments"));
-        out.push(run_case(&mut r, &dir, out.len(), ts, vec![pn.clone(), Node::Prim { tag: 0x7FE0_0010, vr: *b"OW", bytes: vec![1, 2, 3, 4] }], "corpus-native"));
-        out.push(run_case(&mut r, &dir, out.len(), ts, vec![Node::Seq { tag: 0x0008_1140, undef: false, items: vec![(false, vec![pn.clone()]), (true, vec![]), (false, vec![])] }, pn.clone()], "corpus-defined-lengths"));
+        out.push(run_case(&mut r, &dir, out.len(), ts, vec![pn.clone(), Node::Pix { bot: vec![], frags: vec![vec![1, 2, 3, 4], vec![5, 6]] }], "corpus-empty-bot", None));
+        out.push(run_case(&mut r, &dir, out.len(), ts, vec![pn.clone(), Node::Pix { bot: vec![0, 12], frags: vec![vec![1, 2, 3, 4], vec![5, 6]] }], "corpus-bot", None));
+        out.push(run_case(&mut r, &dir, out.len(), ts, vec![pn.clone(), Node::Pix { bot: vec![], frags: vec![vec![], vec![7, 8], vec![]] }], "corpus-zero-length-fragments", None));
+        out.push(run_case(&mut r, &dir, out.len(), ts, vec![pn.clone(), Node::Pix { bot: vec![0], frags: vec![] }], "corpus-no-fragments", None));
+        out.push(run_case(&mut r, &dir, out.len(), ts, vec![pn.clone(), Node::Prim { tag: 0x7FE0_0010, vr: *b"OW", bytes: vec![1, 2, 3, 4] }], "corpus-native", None));
+        out.push(run_case(&mut r, &dir, out.len(), ts, vec![Node::Seq { tag: 0x0008_1140, undef: false, items: vec![(false, vec![pn.clone()]), (true, vec![]), (false, vec![])] }, pn.clone()], "corpus-defined-lengths", None));
+    }
+    // attributes of group 7FE0 below Pixel Data: every stop-before-Pixel-Data variant must deliver them
+    for ts in [Ts::Ele, Ts::Ile, Ts::Ebe] {
+        let nodes = vec![pn.clone(), Node::Prim { tag: 0x7FE0_0001, vr: *b"OV", bytes: vec![0; 8] }, Node::Prim { tag: 0x7FE0_0002, vr: *b"OV", bytes: vec![4, 0, 0, 0, 0, 0, 0, 0] },
+                         Node::Prim { tag: 0x7FE0_0003, vr: *b"UV", bytes: vec![12, 0, 0, 0, 0, 0, 0, 0] }, Node::Pix { bot: vec![], frags: vec![vec![1, 2, 3, 4]] }];
+        out.push(run_case(&mut r, &dir, out.len(), ts, nodes.clone(), "corpus-pixel-group-attributes", Some(vec![(true, 0x7FE0_0010)])));
+        out.push(run_case(&mut r, &dir, out.len(), ts, nodes, "corpus-pixel-group-attributes", Some(vec![(false, 0x0010_0020), (true, 0x7FE0_0010), (false, 0x7FE0_0002)])));
     }
     while out.len() < ctx.n {
         let ts = *r.pick(&[Ts::Ile, Ts::Ele, Ts::Ebe]);
         let nodes = gen_nodes(&mut r, 2, true, ts);
         let i = out.len();
-        out.push(run_case(&mut r, &dir, i, ts, nodes, "generated"));
+        out.push(run_case(&mut r, &dir, i, ts, nodes, "generated", None));
     }
     let _ = std::fs::remove_dir_all(&dir);
     out
